@@ -274,6 +274,9 @@ def check(ctx):
     from . import c16 as _c16
     for impl in _c16.IMPLS:
         _c16.fixpoint(ctx.borrowed("R8", "C16", only=("R1", "R2")), repo, impl, ctx.tier)
+    ctx.rule("R9", "exactly one command per request also under contention: every command factory handed to the request engine builds its handler when called (a handler built before the lock is taken starts its timeout clock early, expires while waiting, and the one stale instance is re-sent on every retry) - C06.R1 builds-fresh-request borrowed")
+    from . import c06 as _c06
+    _c06.fresh_request_factories(ctx.borrowed("R9", "C06"), repo)
     ctx.note("NOT decided: closed loop with a responding spa (the write applied, echoed and read back) - composition of C02, C04, C05.")
 
 
